@@ -6,6 +6,7 @@ package ringx
 
 import (
 	"fmt"
+	"math/rand"
 	"os"
 	"reflect"
 	"sort"
@@ -162,10 +163,10 @@ func replay(c cfg, b beh) (stepIdx int, key, msg string) {
 			return i, "infra", "unknown action " + stp.Act
 		}
 		if t := s.Threads[th]; t == nil || t.Done || t.Parked {
-			return i, "not enabled " + stp.Act, fmt.Sprintf("step %d %s%v: the specification takes this step but thread %q cannot run in the real code (missing, finished or still parked)", i, stp.Act, stp.Args, th)
+			return i, "shape not enabled " + stp.Act, fmt.Sprintf("step %d %s%v: the specification takes this step but thread %q cannot run in the real code (missing, finished or still parked)", i, stp.Act, stp.Args, th)
 		}
 		if err := s.Step(th); err != nil {
-			return i, "stuck " + stp.Act, fmt.Sprintf("step %d %s%v: %v", i, stp.Act, stp.Args, err)
+			return i, "shape stuck " + stp.Act, fmt.Sprintf("step %d %s%v: %v", i, stp.Act, stp.Args, err)
 		}
 		if e := prime(); e != "" {
 			return i, "infra", e
@@ -204,20 +205,9 @@ func replay(c cfg, b beh) (stepIdx int, key, msg string) {
 			}
 		}
 		w := stp.State
-		diff := ""
+		// what a user observes first: which elements were accepted, refused and processed, in which order
+		diff, key := "", "state "
 		switch {
-		case r.l != w.L:
-			diff = fmt.Sprintf("length %d, spec %d", r.l, w.L)
-		case r.dead != w.Dead:
-			diff = fmt.Sprintf("dead %v, spec %v", r.dead, w.Dead)
-		case !sameInts(contents, w.Contents):
-			diff = fmt.Sprintf("queue contents %v, spec %v", contents, w.Contents)
-		case !sameSet(parked, w.Parked):
-			diff = fmt.Sprintf("parked pushers %v, spec %v", parked, w.Parked)
-		case !sameSet(signalled, w.Signalled):
-			diff = fmt.Sprintf("woken pushers %v, spec %v", signalled, w.Signalled)
-		case worker != w.Worker:
-			diff = fmt.Sprintf("worker %s, spec %s", worker, w.Worker)
 		case !sameInts(processed, w.Processed):
 			diff = fmt.Sprintf("processed %v, spec %v", processed, w.Processed)
 		case !sameInts(accepted, w.Accepted):
@@ -232,8 +222,26 @@ func replay(c cfg, b beh) (stepIdx int, key, msg string) {
 				diff = fmt.Sprintf("rejected %v, spec %v", rj, wr)
 			}
 		}
+		if diff == "" {
+			// the rest is the ring's internal shape (TestExplore decides whether a difference there matters)
+			key = "shape state "
+			switch {
+			case r.l != w.L:
+				diff = fmt.Sprintf("length %d, spec %d", r.l, w.L)
+			case r.dead != w.Dead:
+				diff = fmt.Sprintf("dead %v, spec %v", r.dead, w.Dead)
+			case !sameInts(contents, w.Contents):
+				diff = fmt.Sprintf("queue contents %v, spec %v", contents, w.Contents)
+			case !sameSet(parked, w.Parked):
+				diff = fmt.Sprintf("parked pushers %v, spec %v", parked, w.Parked)
+			case !sameSet(signalled, w.Signalled):
+				diff = fmt.Sprintf("woken pushers %v, spec %v", signalled, w.Signalled)
+			case worker != w.Worker:
+				diff = fmt.Sprintf("worker %s, spec %s", worker, w.Worker)
+			}
+		}
 		if diff != "" {
-			return i, "state " + stp.Act, fmt.Sprintf("after step %d %s%v the real ring differs from the specification: %s", i, stp.Act, stp.Args, diff)
+			return i, key + stp.Act, fmt.Sprintf("after step %d %s%v the real ring differs from the specification: %s", i, stp.Act, stp.Args, diff)
 		}
 		prev = w
 	}
@@ -266,4 +274,131 @@ func TestReplay(t *testing.T) {
 		}
 	}
 	raw.Emit(map[string]any{"kind": "stat", "behaviours": len(behs), "steps": steps, "violations": nviol})
+}
+
+// TestExplore runs pushers, the worker they start and (in half of the runs) die() under pseudo-random schedules that are
+// NOT steered by the specification, and checks Ring.tla's properties on what is observable, whatever the ring's
+// internal shape: never two workers, elements are processed in the order they were accepted (Fifo), an element refused
+// as dead is never processed, nobody stays parked forever, and at the end everything accepted has been processed.
+func TestExplore(t *testing.T) {
+	var c cfg
+	if err := jsonFile(os.Getenv("VERIF_CFG"), &c); err != nil {
+		t.Fatal(err)
+	}
+	n := raw.EnvInt("VERIF_N", 5000)
+	rng := rand.New(rand.NewSource(int64(raw.EnvInt("VERIF_SEED", 1))))
+	nviol, steps := 0, 0
+	forcer := map[string]bool{}
+	for _, f := range c.Forcers {
+		forcer[f] = true
+	}
+	for run := 0; run < n; run++ {
+		s := ctl.New()
+		minRingCap = c.MinCap
+		r := &ring[*el]{}
+		if c.MaxLen > 0 {
+			r.initMaxLen(c.MaxLen)
+		}
+		ids := map[*el]int{}
+		var processed, accepted, rejected []int
+		workers, nworkers := 0, 0
+		var spawn func(e *el)
+		spawn = func(e *el) {
+			nworkers++
+			workers++
+			s.Go(fmt.Sprintf("w%d", nworkers), func() {
+				elem, more := e, true
+				for more {
+					s.Yield("work")
+					processed = append(processed, ids[elem])
+					elem, more, _ = r.dropPeek()
+				}
+				workers--
+			})
+		}
+		for _, p := range c.Pushers {
+			s.Go(p, func() {
+				for k := 0; k < c.PerPusher; k++ {
+					e := &el{p, k}
+					ids[e] = len(ids) + 1
+					var first, dead bool
+					if forcer[p] {
+						first, dead = r.pushForce(e)
+					} else {
+						first, dead = r.push(e)
+					}
+					if dead {
+						rejected = append(rejected, ids[e])
+					} else {
+						accepted = append(accepted, ids[e])
+					}
+					if first {
+						spawn(e)
+					}
+				}
+			})
+		}
+		kill := rng.Intn(2) == 0
+		if kill {
+			s.Go("killer", func() { r.die() })
+		}
+		var sched []string
+		bad, what := "", ""
+		for len(sched) < 2000 && bad == "" {
+			var run []string
+			alive := s.Alive()
+			for _, a := range alive {
+				if !s.Threads[a].Parked {
+					run = append(run, a)
+				}
+			}
+			if len(alive) == 0 {
+				break
+			}
+			if len(run) == 0 {
+				bad, what = "waits forever", fmt.Sprintf("pushers %v are parked on the ring and nothing is left to wake them (accepted %v, processed %v)", alive, accepted, processed)
+				break
+			}
+			th := run[rng.Intn(len(run))]
+			if th == "killer" && rng.Intn(4) != 0 { // die() late more often than early
+				continue
+			}
+			sched = append(sched, th)
+			if err := s.Step(th); err != nil {
+				bad, what = "infra", err.Error()
+				break
+			}
+			if len(s.Errors) > 0 {
+				bad, what = "infra", fmt.Sprint(s.Errors)
+				break
+			}
+			switch {
+			case workers > 1:
+				bad, what = "two workers", fmt.Sprintf("%d worker goroutines are alive at once", workers)
+			case len(processed) > len(accepted) || !sameInts(processed, accepted[:len(processed)]):
+				bad, what = "order", fmt.Sprintf("elements were processed in the order %v, they were accepted in the order %v", processed, accepted)
+			}
+		}
+		steps += len(sched)
+		if bad == "" && len(s.Alive()) != 0 {
+			bad, what = "waits forever", fmt.Sprintf("threads %v have not finished after %d steps", s.Alive(), len(sched))
+		}
+		if bad == "" && !sameInts(processed, accepted) {
+			bad, what = "lost element", fmt.Sprintf("every thread has finished; accepted %v but processed %v", accepted, processed)
+		}
+		if bad != "" {
+			if k := s.Threads["killer"]; k != nil && !k.Done {
+				s.Step("killer")
+			} else if !kill {
+				s.Go("killer", func() { r.die() })
+				s.Step("killer")
+			}
+			s.Drain(200)
+			nviol++
+			if nviol <= 5 {
+				raw.Emit(map[string]any{"kind": "viol", "key": bad, "what": fmt.Sprintf("%s; die() part of the run: %v; schedule (thread taking each step) %v", what, kill, sched), "schedule": sched, "case": -1, "step": len(sched)})
+			}
+		}
+	}
+	raw.Emit(map[string]any{"kind": "stat", "schedules": n, "steps": steps, "violations": nviol})
 }
